@@ -119,6 +119,45 @@ def coefficient_case(ctx, case):
                 ctx.extra['flags_reached'][key] = ctx.extra['flags_reached'].get(key, 0) + mdl.n
                 ctx.nontrivial(dict(flag=key), sample=dict(model=name, param=pname, kind=kind, case=case['path']))
     ctx.count('coef:entries_checked', checked)
+    # ---- what an export writes for a flagged parameter is the input value that was supplied (also list-valued ones) -----------
+    def same(a, b):
+        try:
+            if isinstance(a, str) or isinstance(b, str):
+                a2 = np.asarray(eval(a, {'__builtins__': {}}, {})) if isinstance(a, str) else np.asarray(a)
+                b2 = np.asarray(eval(b, {'__builtins__': {}}, {})) if isinstance(b, str) else np.asarray(b)
+            else:
+                a2, b2 = np.asarray(a), np.asarray(b)
+            a2, b2 = a2.astype(float).ravel(), b2.astype(float).ravel()
+            return a2.shape == b2.shape and bool(np.all((a2 == b2) | (np.isnan(a2) & np.isnan(b2)) | (np.abs(a2 - b2) <= 1e-12 * np.abs(b2))))
+        except Exception:
+            return None
+    nexp = 0
+    for name, mdl in ss.models.items():
+        if mdl.n == 0 or name not in rows:
+            continue
+        flagged = set()
+        for kind in opu.KINDS:
+            flagged.update(mdl.find_param(kind))
+        if not flagged:
+            continue
+        exported = mdl.as_dict(vin=True)
+        supplied = {r['idx']: r for r in rows[name]}
+        for pname in sorted(flagged):
+            if pname not in exported:
+                continue
+            for k, idx in enumerate(mdl.idx.v):
+                r = supplied.get(idx)
+                if r is None or pname not in r or r[pname] is None:
+                    continue
+                ok = same(exported[pname][k], r[pname])
+                if ok is None:
+                    continue
+                nexp += 1
+                if not ok:
+                    ctx.fail('export_writes_other_than_input_value',
+                             dict(case=case, model=name, param=pname, device=repr(idx), exported=repr(exported[pname][k])[:80],
+                                  supplied=repr(r[pname])[:80]), sig=dict(model=name, param=pname))
+    ctx.count('coef:exported_values_checked', nexp)
 
 
 @st.composite
